@@ -321,7 +321,8 @@ def _exec_H(trace):
                 changed_seen = True
     finally:
         base.rm_tree(root)
-    return {"violations": vio, "digest": base.digest(events), "nontrivial": nontrivial, "stats": stats, "steps": stats.get("H_ops", 0)}
+    return {"violations": vio, "digest": base.digest(events), "nontrivial": nontrivial, "stats": stats, "steps": stats.get("H_ops", 0),
+            "measures": {"distinct_histories(op lists)": base.digest([{k: v for k, v in o.items() if k not in ("again", "alias")} for o in trace["ops"]])}}
 
 
 def _brief(op):
@@ -409,7 +410,9 @@ def _exec_T(trace):
     explicit = None
     if vio and trace.get("schedule") is None:
         explicit = dict(trace, schedule=sc.explicit_schedule())
-    return {"violations": vio, "digest": base.digest(events), "nontrivial": bool(switches), "stats": stats, "steps": sc.steps, "explicit": explicit}
+    return {"violations": vio, "digest": base.digest(events), "nontrivial": bool(switches), "stats": stats, "steps": sc.steps, "explicit": explicit,
+            "measures": {"distinct_interleavings(switch sequences from,to,file:line)": base.digest([(d[1], d[2], d[3]) for d in sc.decisions]),
+                         "distinct_thread_workloads": base.digest(clients)}}
 
 
 _P_CODE = ("import sys, json\nfrom verif_sim import apiops, base\nops = json.loads(sys.stdin.read())\n"
